@@ -37,6 +37,14 @@ def standard_classes(decoder_cls):
     return out
 
 
+def buffer_bytes(fr):
+    """the unconsumed bytes a framer holds, as one byte string (canonical forms that need the receive state only)"""
+    b = getattr(fr, '_buffer', None)
+    if isinstance(b, (bytes, bytearray)):
+        return bytes(b)
+    return b''.join(bytes(v) for k, v in sorted(vars(fr).items()) if isinstance(v, (bytes, bytearray)))
+
+
 def buffered(fr):
     """number of unconsumed bytes a framer holds (its receive buffer)"""
     b = getattr(fr, '_buffer', None)
@@ -97,6 +105,12 @@ def _freeze(v):
         tok = ('o', 'Pattern', v.pattern)
     elif isinstance(v, (types.FunctionType, types.BuiltinFunctionType, types.MethodType, type, types.ModuleType)):
         tok = ('o', type(v).__name__, getattr(v, '__qualname__', getattr(v, '__name__', '?')))
+    elif hasattr(v, '__dict__') and type(v).__module__ not in ('builtins', 'socket', 'threading', '_thread'):
+        # a small helper object the framer keeps part of its state in: its class + everything it holds
+        ctok = ('o', 'class', type(v).__module__ + '.' + type(v).__qualname__)
+        _OPAQUE[ctok] = type(v)
+        slots = tuple((k, _freeze(getattr(v, k))) for c in type(v).__mro__ for k in getattr(c, '__slots__', ()) if k not in ('__dict__', '__weakref__') and hasattr(v, k))
+        return ('obj', ctok, tuple(sorted((k, _freeze(x)) for k, x in vars(v).items())), slots)
     else:
         raise UnknownState('cannot canonicalise %r' % (v,))
     _OPAQUE[tok] = v
@@ -121,6 +135,14 @@ def _thaw(v):
             return (frozenset if v[1] else set)(_thaw(x) for x in v[2:])
         if tag == 'o':
             return _OPAQUE[v]
+        if tag == 'obj':
+            cls = _OPAQUE[v[1]]
+            o = cls.__new__(cls)
+            for k, x in v[2]:
+                o.__dict__[k] = _thaw(x)
+            for k, x in v[3]:
+                setattr(o, k, _thaw(x))
+            return o
     return v
 
 
